@@ -136,13 +136,12 @@ def run(ctx):
               "gen_json_object no longer iterates properties.keys().chain(required.iter()...): object members are emitted in a different order", site=go.where())
     of = ctx.body(JC + "::object_fields")
     sites = go.call_blocks(of.id)
-    ok = False
-    for bi in sites:
-        e = go.expr(go.blocks[bi]["term"]["args"][1])
-        l = L.root_local(go, e)
-        ok = ok or (l is not None and go.local_name(l) == "items")
-    ctx.check(ok, "C07-R1", "gen_json_object:items-to-object_fields", "the collected items are handed on in collection order",
-              "gen_json_object no longer passes `items` to object_fields", site=go.where())
+    # the vector handed to object_fields is the one the iteration pushes to (identified by data flow, not by name)
+    handed = {L.root_local(go, go.expr(go.blocks[bi]["term"]["args"][1])) for bi in sites} - {None}
+    pushed = {L.root_local(go, go.expr(t["args"][0])) for _, t in go.calls() if t["f"].get("def", "").endswith("Vec::<T, A>::push")} - {None}
+    items = handed & pushed
+    ctx.check(len(items) == 1 and len(handed) == 1, "C07-R1", "gen_json_object:items-to-object_fields", "the collected items are handed on in collection order",
+              "gen_json_object no longer passes the vector it collects the members into to object_fields", site=go.where())
     osq = of.call_blocks(JC + "::ordered_sequence")
     ok = False
     for bi in osq:
@@ -153,7 +152,7 @@ def run(ctx):
               "object_fields no longer passes its items to ordered_sequence", site=of.where())
     # items is only ever pushed to (never sorted / reversed)
     bad = [t["f"]["def"] for _, t in go.calls() if t["f"].get("def", "").rsplit("::", 1)[-1] in ("sort", "sort_by", "sort_by_key", "sort_unstable", "reverse", "swap", "dedup")
-           and L.root_local(go, go.expr(t["args"][0])) is not None and go.local_name(L.root_local(go, go.expr(t["args"][0]))) == "items"]
+           and L.root_local(go, go.expr(t["args"][0])) in handed]
     ctx.check(not bad, "C07-R1", "gen_json_object:items-not-reordered", "items is never sorted or reversed", "gen_json_object reorders items with %s" % bad, site=go.where())
 
     # ---- R2: a valid token must not disappear from the mask: speculative rows are never re-used across trie
